@@ -971,7 +971,7 @@ var (
 func suspicious(outs []string) bool {
 	for _, o := range outs {
 		if strings.HasPrefix(o, "CRASH") || o == "HANG" || strings.HasPrefix(o, "NOCHILD") || strings.Contains(o, "noentry") ||
-			strings.Contains(o, "noreturn") || strings.Contains(o, "next=timeout") || strings.Contains(o, "slow=yes") ||
+			strings.Contains(o, "noreturn") || strings.Contains(o, "last=blocked") || strings.Contains(o, "next=timeout") || strings.Contains(o, "slow=yes") ||
 			strings.Contains(o, "exec=true") || strings.Contains(o, "sync=timeout") {
 			return true
 		}
